@@ -9,12 +9,12 @@ import (
 )
 
 type Clause struct {
-	Label string
-	Props []string // nil: inherit from function
-	Uses  []string // nil: every assumption; else only the named invariants / callee postconditions (plus preconditions)
+	Label    string
+	Props    []string // nil: inherit from function
+	Uses     []string // nil: every assumption; else only the named invariants / callee postconditions (plus preconditions)
 	InitUses []string // extra assumptions for establishing a loop invariant
-	E     Expr
-	Src   string
+	E        Expr
+	Src      string
 }
 
 type LoopSpec struct {
@@ -285,7 +285,7 @@ func parseContractFile(path, pkg string) (*ContractFile, error) {
 				return nil, fail(fmt.Errorf("bad ghost func"))
 			}
 			g := &GhostFunc{Name: strings.TrimSpace(r2[:i]), Ret: strings.TrimSpace(r2[j+1:])}
-			for _, p := range splitTop(r2[i+1:j]) {
+			for _, p := range splitTop(r2[i+1 : j]) {
 				p = strings.TrimSpace(p)
 				if p == "" {
 					continue
